@@ -3794,7 +3794,10 @@ XPath::findAttributes(
                     const eMatchScore   score =
                         theTester(*theNode, XalanNode::ATTRIBUTE_NODE);
 
-                    if(eMatchScoreNone != score)
+                    // Namespace declarations are not on the attribute axis,
+                    // whatever the node test (node() does not look at them).
+                    if(eMatchScoreNone != score &&
+                       DOMServices::isNamespaceDeclaration(static_cast<const XalanAttr&>(*theNode)) == false)
                     {
                         subQueryResults.addNode(theNode);
                     }
